@@ -27,6 +27,7 @@ import (
 	"seehuhn.de/go/sfnt/head"
 	"seehuhn.de/go/sfnt/header"
 	"seehuhn.de/go/sfnt/hmtx"
+	"seehuhn.de/go/sfnt/kern"
 	"seehuhn.de/go/sfnt/maxp"
 	"seehuhn.de/go/sfnt/name"
 	"seehuhn.de/go/sfnt/opentype/gdef"
@@ -322,6 +323,7 @@ type fileTables struct {
 	gsub     *gtab.Info
 	gpos     *gtab.Info
 	hasKern  bool
+	kern     kern.Info
 }
 
 // decodeTables reads every table sfnt.Read consults with the repository's
@@ -492,6 +494,16 @@ func decodeTables(data []byte) (ft *fileTables, err error) {
 		}
 	}
 	ft.hasKern = dir.Has("kern")
+	if ft.hasKern && ft.gpos == nil {
+		// Read consults the kern table only when there is no GPOS table
+		fd, err := dir.TableReader(rr, "kern")
+		if err != nil {
+			return nil, err
+		}
+		if ft.kern, err = kern.Read(fd); err != nil {
+			return nil, err
+		}
+	}
 	return ft, nil
 }
 
@@ -637,5 +649,32 @@ func (ft *fileTables) tablesSx(obs bool, ctime, mtime *time.Time) (v.Sx, error) 
 	if err != nil {
 		return nil, err
 	}
-	return v.L(v.Atom("tables"), v.Bool(ft.cff), hd, hm, mx, o2, cm, nm, po, ci, ol, gd, gs, gp), nil
+	kn := v.Sx(none)
+	if ft.kern != nil {
+		if kn, err = gtabID(kernGpos(ft.kern)); err != nil {
+			return nil, err
+		}
+	}
+	return v.L(v.Atom("tables"), v.Bool(ft.cff), hd, hm, mx, o2, cm, nm, po, ci, ol, gd, gs, gp, kn), nil
+}
+
+// kernGpos is the pair-adjustment table a kern table stands for: one "kern"
+// feature for the default script with one lookup holding one XAdvance
+// adjustment per pair (the model treats it as data; which of GPOS and kern
+// wins is the model's business).
+func kernGpos(k kern.Info) *gtab.Info {
+	sub := gtab.Gpos2_1{}
+	for pair, val := range k {
+		sub[pair] = &gtab.PairAdjust{First: &gtab.GposValueRecord{XAdvance: val}}
+	}
+	return &gtab.Info{
+		ScriptList: map[language.Tag]*gtab.Features{
+			language.MustParse("und-Zzzz-x-dflt"): {Required: 0, Optional: []gtab.FeatureIndex{}},
+		},
+		FeatureList: []*gtab.Feature{{Tag: "kern", Lookups: []gtab.LookupIndex{0}}},
+		LookupList: []*gtab.LookupTable{{
+			Meta:      &gtab.LookupMetaInfo{LookupType: 2},
+			Subtables: []gtab.Subtable{sub},
+		}},
+	}
 }
